@@ -316,7 +316,7 @@ func decodeRune(s string) (rune, int) {
 }
 
 func recordSessions(c *lib.Ctx, emptyDir string) ([]trace, error) {
-	n := c.Pick(40, 400)
+	n := c.Pick(30, 250)
 	scripts := make([][]op, n)
 	for i := range scripts {
 		scripts[i] = randomScript(c)
@@ -329,7 +329,7 @@ func recordSessions(c *lib.Ctx, emptyDir string) ([]trace, error) {
 		{Op: "hover", URI: "u3", Sym: []string{}, L: 0, C: 0},
 	})
 	// directed: bursts of changes of one document without waiting (publications race in the server)
-	for i := c.Pick(30, 150); i > 0; i-- {
+	for i := c.Pick(20, 80); i > 0; i-- {
 		burst := []op{{Op: "open", URI: "u1", Sym: []string{}, Text: ""}}
 		for k := 1; k <= 12; k++ {
 			sym := make([]string, k)
